@@ -161,6 +161,46 @@ def body_unrodded(env):
                s._pressure_drop['friction'] + s._pressure_drop['gravity'])
 
 
+def body_clones(env):
+    """Two regions cloned from one template by the real clone() and advanced alternately: each clone's accumulated
+    pressure drop is its own closed form (a shared accumulator would add the other clone's losses)."""
+    from symx import fixtures
+    kind = env.params['kind']
+    with env.patch(MODS):
+        if kind == 'rodded':
+            t = fixtures.make_rodded(2, 1)
+        else:
+            t = fixtures.make_unrodded(kind)
+        A, B = t.clone(new_flowrate=1.0), t.clone(new_flowrate=2.0)
+        regs = []
+        for nm, reg in (('A', A), ('B', B)):
+            rho, ff, vel = env.pos('rho_' + nm, hi=1e4), env.pos('ff_' + nm, hi=10), env.pos('vel_' + nm, hi=100)
+            cool = _Mat()
+            cool.density = rho
+            reg.coolant = cool
+            reg._gravity = True
+            if kind == 'rodded':
+                reg.coolant_int_params = dict(reg.coolant_int_params, ff=ff, vel=vel)
+                reg._spacer_grid = None
+                de = float(reg.bundle_params['de'])
+            else:
+                reg.coolant_params = dict(reg.coolant_params, ff=ff, vel=vel)
+                de = float(reg._params['de']) if reg._rr_equiv is None else float(reg._rr_equiv.bundle_params['de'])
+            regs.append((nm, reg, rho, ff, vel, de))
+        dz = [env.pos('dz%d' % i, hi=1) for i in range(2)]
+        z = [dz[0], dz[0] + dz[1]]
+        for i in range(2):
+            for nm, reg, rho, ff, vel, de in regs:
+                reg.calculate_pressure_drop(z[i], dz[i])
+        L = dz[0] + dz[1]
+        for nm, reg, rho, ff, vel, de in regs:
+            env.eq('clone %s: friction loss is its own f L rho v^2 / (2 De)' % nm, reg._pressure_drop['friction'],
+                   ff * L * rho * vel * vel / de / 2.0, tol=1e-9, key='clones_share_pressure_drop')
+            env.eq('clone %s: gravity loss is its own rho g L' % nm, reg._pressure_drop['gravity'], rho * 9.80665 * L, tol=1e-9,
+                   key='clones_share_pressure_drop')
+        env.eq('the template has accumulated nothing', t._pressure_drop['friction'] + t._pressure_drop['gravity'], 0.0)
+
+
 class _Asm(StubSelf):
     @property
     def active_region(self):
@@ -220,6 +260,8 @@ def instances(tier):
                                  body=body_unrodded, params={'k': k, 'gravity': gravity, 'equiv': equiv}))
     for nreg in (1, 2, 3, 4):
         inst.append(dict(label='assembly-sum[regions=%d]' % nreg, body=body_assembly, params={'nreg': nreg}))
+    for kind in ('simple', '6node', 'rodded'):
+        inst.append(dict(label='clones[%s]' % kind, body=body_clones, params={'kind': kind}))
     return inst
 
 
